@@ -98,6 +98,7 @@ var parserPool = sync.Pool{
 //
 // Thread Safety: Safe for concurrent calls - each goroutine gets its own instance.
 func GetParser() *Parser {
+	verifPoolGate("parser.get")
 	return parserPool.Get().(*Parser)
 }
 
@@ -119,6 +120,7 @@ func PutParser(p *Parser) {
 	if p != nil {
 		p.Reset()
 		parserPool.Put(p)
+		verifPoolGate("parser.put")
 	}
 }
 
